@@ -144,22 +144,24 @@ def _history(payload, sub):
                 yield row
         return step
 
+    rewindable = []
+
     class Restartable:
-        # an iterator that starts over after it ended: what load() pulls from when the same Flow object runs again
+        # a lawful iterator (exhausted stays exhausted) that is rewound before every RUN op, the way one would seek(0) a file:
+        # what load() pulls from when the same Flow object runs again
         def __init__(self, ti, rows):
-            self.ti, self.rows, self.g = ti, rows, None
+            self.ti, self.rows = ti, rows
+            self.g = iter(Src(ti, rows))
+            rewindable.append(self)
+
+        def rewind(self):
+            self.g = iter(Src(self.ti, self.rows))
 
         def __iter__(self):
             return self
 
         def __next__(self):
-            if self.g is None:
-                self.g = iter(Src(self.ti, self.rows))
-            try:
-                return next(self.g)
-            except BaseException:
-                self.g = None
-                raise
+            return next(self.g)
 
     def make():
         if spec.get('src') == 'load':
@@ -189,6 +191,8 @@ def _history(payload, sub):
     outs = []
     for op in payload['ops']:
         if op['op'] == 'run':
+            for it in rewindable:
+                it.rewind()
             counters['src'] = [0] * len(spec['tables'])
             for k in counters['steps']:
                 counters['steps'][k] = 0
